@@ -1555,10 +1555,9 @@ def bridge_correspondence(what, r, m):
         if ms[k] != rs[k]:
             return f"{what}: bridge {k} differs: model {ms[k]} real {rs[k]}"
     if ms.get("wf") is False:
-        # the class's two views disagree (a name is a Constant for getattr inside StructMeta.__new__ and a Field in
-        # _field_by_name: C16's finding names-mismatch:constant-shadowed-in-diamond): the constructor writes the Constant
-        # through the Field and cannot succeed; outside the bridge's domain (Bridge.wf is a hypothesis of the theorems)
-        return None
+        # C14.reachable_bridge_wf: cannot happen for a class a history defines (since the repair of
+        # names-mismatch:constant-shadowed-in-diamond the Constants are the Constant members of _field_by_name)
+        return f"{what}: the model's class record has Bridge.wf = false (signature / Constants / fields views disagree)"
     has_inline = '"inline": true' in json.dumps(rs["decl"])
     for i, (rc, mc) in enumerate(zip(r.get("ctor", []), m.get("ctor", []))):
         rr, mr = rc["res"], mc["res"]
